@@ -1,5 +1,5 @@
 // auto-generated: "lalrpop 0.23.1"
-// sha3: 204eb7a81f316b552561e2c5cd6d40ab66ea031b5c3a160b146601e283b3beaf
+// sha3: 2c5fa4bbac90824eacd8777b43f23c34687bd65ea16cc6dc190631adf4415147
 #[allow(unused_extern_crates)]
 extern crate lalrpop_util as __lalrpop_util;
 #[allow(unused_imports)]
@@ -641,7 +641,7 @@ fn __action1<
     (_, __0, _): (usize, &'input str, usize),
 ) -> String
 {
-    r",,a/*".to_string()
+    { let r#type = [1, 2, 3]; r#type[(0 + 1)].to_string() }
 }
 
 #[allow(unused_variables)]
@@ -653,7 +653,7 @@ fn __action2<
     (_, __0, _): (usize, &'input str, usize),
 ) -> String
 {
-    "/*,;a \"".to_string()
+    { let r = 7; let t = (r, 1); /* /* nested , */ ; */ (t.0 / t.1).to_string() }
 }
 
 #[allow(unused_variables)]
@@ -665,7 +665,7 @@ fn __action3<
     (_, __0, _): (usize, &'input str, usize),
 ) -> String
 {
-    "' */\n".to_string()
+    r###"\#\\"###.to_string()
 }
 
 #[allow(unused_variables)]
@@ -677,8 +677,7 @@ fn __action4<
     (_, __0, _): (usize, &'input str, usize),
 ) -> String
 {
-    { /* } , ; */ let v = vec![(1, 2), (3, 4)]; // }
- v[1].0.to_string() }
+    { let r = 7; let t = (r, 1); /* /* nested , */ ; */ (t.0 / t.1).to_string() }
 }
 
 #[allow(unused_variables)]
@@ -690,7 +689,7 @@ fn __action5<
     (_, __0, _): (usize, &'input str, usize),
 ) -> String
 {
-    '{'.to_string()
+    format!("{}{}", '('.to_string(), r#"({"#.to_string())
 }
 
 #[allow(unused_variables)]
@@ -702,7 +701,7 @@ fn __action6<
     (_, __0, _): (usize, &'input str, usize),
 ) -> String
 {
-    { let r#type = [1, 2, 3]; r#type[(0 + 1)].to_string() }
+    { let r = 7; let t = (r, 1); /* /* nested , */ ; */ (t.0 / t.1).to_string() }
 }
 
 #[allow(unused_variables)]
@@ -726,7 +725,7 @@ fn __action8<
     (_, __0, _): (usize, &'input str, usize),
 ) -> String
 {
-    "{{//]\u{7d}".to_string()
+    '\''.to_string()
 }
 
 #[allow(clippy::type_complexity, dead_code)]
